@@ -52,6 +52,7 @@ def run_property(prop, tier, write_evidence=True):
         mod.run(ctx, res)
         analysed = dict(ctx.model.summary())
         analysed['repo'] = ctx.model.root
+        analysed['accessed_modules'] = sorted(ctx.model.accessed_modules)
         analysed['tables'] = res.tables
         analysed.update(res.stats)
     except AnalysisError as e:
@@ -61,6 +62,10 @@ def run_property(prop, tier, write_evidence=True):
         crashed = 'checker crashed: {}: {}'.format(type(e).__name__, e)
     if crashed:
         res.undecided('runner', '-', 'analysis-aborted', crashed)
+        if not analysed and ctx._model is not None:
+            analysed = {'repo': ctx.model.root,
+                        'accessed_modules': sorted(
+                            ctx.model.accessed_modules)}
     return core.finish(
         prop, tier, res, t0,
         explanation=getattr(mod, 'EXPLANATION', ''),
